@@ -298,6 +298,35 @@ def check_bool_text(t: Tally):
                             note="a BoolParameter that is true does not print as True (or a false one not as False)")
 
 
+def check_bool_on_strings(t: Tally):
+    """A boolean parameter on a string encoding (terminated, with a size tag, plain): whatever truth value the library derives, the raw value
+    it carries is the bytes of the field as read from the packet."""
+    import warnings
+    from space_packet_parser.packets import CCSDSPacket
+    from space_packet_parser.xtce import encodings, parameter_types
+    with warnings.catch_warnings():
+        warnings.simplefilter("ignore")
+        kinds = {"terminated": parameter_types.BooleanParameterType("B", encodings.StringDataEncoding(fixed_raw_length=32, termination_character="00")),
+                 "size tag": parameter_types.BooleanParameterType("B", encodings.StringDataEncoding(fixed_raw_length=32, leading_length_size=8)),
+                 "plain": parameter_types.BooleanParameterType("B", encodings.StringDataEncoding(fixed_raw_length=32))}
+    for kname, pt in kinds.items():
+        for data in (b"\x00ABC", b"ok\x00\x00", b"\x00\x00\x00\x00", b"ABCD", b"\x10AB\x00", b"\x08A\x00\x00"):
+            t.evals += 1
+            t.nontrivial += 1
+            try:
+                with warnings.catch_warnings():
+                    warnings.simplefilter("ignore")
+                    v = pt.parse_value(CCSDSPacket(raw_data=data))
+                raw = getattr(v, "raw_value", "<missing>")
+                ok = isinstance(raw, bytes) and bytes(raw) == data
+            except Exception as e:  # noqa: BLE001
+                raw, ok = f"raised {type(e).__name__}", True   # a missing terminator, a size tag pointing beyond the field: not judged here
+            if not ok:
+                t.violation({"kind": "raw-value", "class": "bool", "parsed": True, "what": "not the encoded value", "encoding": "string, " + kname},
+                            {"bool_on_string": True, "encoding": kname, "data": data.hex()}, expected=data.hex(), observed=repr(raw)[:80],
+                            note="a boolean decoded from a string field does not carry the bytes of that field as its raw value")
+
+
 def check_values(t: Tally, tier="quick"):
     from space_packet_parser import common
     ints, floats, strs, byts = value_sets(tier)
@@ -665,7 +694,7 @@ def run(ctx):
     if not ctx.quick:
         pnames += [f"mul{i}" for i in range(24)]
     t.merge(fan_out(_task_parsed, [{"kinds": ch, "patterns": pnames} for ch in chunked(list(range(nk)), 4)], jobs=ctx.jobs, seed=ctx.seed))
-    for part in (check_values, check_bool_text, check_interference, check_packets, check_pairs, check_containers):
+    for part in (check_values, check_bool_text, check_bool_on_strings, check_interference, check_packets, check_pairs, check_containers):
         try:
             with case_alarm(1800):
                 if part is check_values:
